@@ -375,6 +375,30 @@ def slotted_case(protocol, loader="pickle"):
     return err, ok
 
 
+def untouched_case(protocol, loader="pickle"):
+    """objects that are pickled WITHOUT having been looked at first (no accessor, not even .uid, was read on the links,
+    the law set and the bare BaseObject before the dump): identity data that is produced lazily must still round-trip.
+    Originals are read only after the dump.  returns (err, ok)"""
+    from edgegraph.structure import Vertex, Universe, DirectedEdge, UnDirectedEdge, BaseObject
+    from edgegraph.structure.universe import UniverseLaws
+    from edgegraph.output import nrpickler
+    a, b = Vertex(), Vertex()
+    laws = UniverseLaws(mixed_links=True)
+    u = Universe(vertices=[a, b], laws=laws)
+    e1, e2 = DirectedEdge(a, b), UnDirectedEdge(b, a)
+    a.bare = BaseObject()
+    err, ok = "", False
+    try:
+        data = nrpickler.dumps(u, protocol=protocol)
+        u2 = (pickle.loads if loader == "pickle" else dill.loads)(data)
+        a2, b2 = u2.vertices
+        ok = ([x.uid for x in a2.links] == [e1.uid, e2.uid] and u2.laws.uid == laws.uid and a2.bare.uid == a.bare.uid
+              and (a2.uid, b2.uid, u2.uid) == (a.uid, b.uid, u.uid) and u2.laws.mixed_links is True)
+    except Exception as exc:    # noqa: BLE001
+        err = type(exc).__name__
+    return err, ok
+
+
 def after_failure_case(protocol):
     """a dumps() that raises half-way (an attribute that cannot be pickled: a generator) followed by an ordinary
     dumps() of a small graph; returns (first_failed, err, ok)"""
